@@ -126,6 +126,12 @@ type Sim struct {
 	syncMode  bool
 	gstStep   int
 	oracles   []oracle
+	never     chan struct{}   // created inside the bubble
+	sync      *syncState
+	maxPeriod map[basics.Round]uint64 // highest period seen in honest-originated votes per round
+	batchOwn  map[int][]UVote // own attest votes emitted in the reaction being collected
+	shadowSeq int
+	shadowTick int
 }
 
 type oracle interface {
@@ -175,9 +181,9 @@ func drawConfig(tp *kernel.Tape, prop, tier string) Config {
 	if thorough {
 		c.Rounds = tp.Range("cfg.rounds2", 2, 5)
 	}
-	c.MaxSteps = 12000
+	c.MaxSteps = 6000
 	if thorough {
-		c.MaxSteps = 40000
+		c.MaxSteps = 24000
 	}
 	// accounts: 1..2 per node (3 in thorough)
 	maxK := 2
@@ -438,6 +444,19 @@ func (s *Sim) collect() {
 	for _, o := range s.oracles {
 		o.onStepEnd(s)
 	}
+	if len(s.batchOwn) > 0 {
+		if s.cfg.Prop == "C02" && s.viol == nil {
+			for _, n := range s.nodes {
+				if vs := s.batchOwn[n.id]; len(vs) > 0 && n.alive {
+					s.shadowTick++
+					if s.shadowTick%3 == 0 || n.crashes > 0 {
+						s.shadowCheck(n, vs)
+					}
+				}
+			}
+		}
+		s.batchOwn = nil
+	}
 }
 
 func (s *Sim) fanout(n *Node, m outMsg, key string) {
@@ -445,8 +464,9 @@ func (s *Sim) fanout(n *Node, m outMsg, key string) {
 		if d.id == n.id || d.id == m.except {
 			continue
 		}
-		if !m.bcast && s.cfg.RelayKeepPct < 100 {
-			// relays are redundant in a full mesh; thin them deterministically by content
+		if !m.bcast && m.except >= 0 && s.cfg.RelayKeepPct < 100 {
+			// relays of other nodes' messages (handle != nil) are redundant in a full mesh; thin them
+			// deterministically by content. A node's own messages (Broadcast, or Relay with a nil handle) never are.
 			h := sha256.Sum256(append([]byte{byte(d.id), byte(n.id)}, m.data...))
 			if int(h[0])%100 >= s.cfg.RelayKeepPct {
 				continue
@@ -880,6 +900,9 @@ func (s *Sim) cleanup() {
 		in.mu.Unlock()
 	}
 	for _, in := range s.insts {
+		if in.stopped {
+			continue
+		}
 		wg.Add(1)
 		go func(in *inst) {
 			defer wg.Done()
@@ -944,7 +967,8 @@ func (Engine) Run(t *testing.T, prop, tier string, tape *kernel.Tape, keepLog bo
 			s = &Sim{t: t, tape: tape, log: kernel.NewLog(keepLog), dir: dir,
 				commits: map[basics.Round]map[crypto.Digest]string{}, canon: map[basics.Round]bookkeeping.Block{}, canonCert: map[basics.Round]agreement.Certificate{},
 				blocks: map[crypto.Digest]bookkeeping.Block{}, origin: map[string]map[PValue]string{}, emitted: map[string]bool{},
-				states: map[string]bool{}, stats: map[string]int64{}}
+				states: map[string]bool{}, stats: map[string]int64{}, maxPeriod: map[basics.Round]uint64{}}
+			s.never = make(chan struct{})
 			s.cfg = drawConfig(tape, prop, tier)
 			s.installOracles()
 			s.run()
@@ -1012,4 +1036,24 @@ func (s *Sim) sample() any {
 	}
 	return map[string]any{"nodes": s.cfg.Nodes, "adv_instances": s.cfg.AdvInst, "rounds_committed": maxR, "steps": s.step,
 		"crashes": s.crashes, "tape_len": len(s.tape.Rec), "faults": s.stats}
+}
+
+// retire shuts an instance down for good (its seams answer as no-ops from now on).
+func (s *Sim) retire(in *inst) {
+	in.mu.Lock()
+	in.zombie = true
+	in.dead = true
+	in.stopped = true
+	select {
+	case <-in.release:
+	default:
+		close(in.release)
+	}
+	in.mu.Unlock()
+	go func() {
+		in.svc.Shutdown()
+		in.pool.Shutdown()
+		in.acc.Close()
+	}()
+	synctest.Wait()
 }
